@@ -169,14 +169,59 @@ def gen_culture(ctx, cu):
             yield MD_CULT[cu](mo, d, M), R, [p.isoformat(), f.isoformat()], 'XXXX-%02d-%02d' % (mo, d), 'monthday|name', rel
 
 
+PAIR_JOIN = {'en-us': ' and ', 'es-es': ' y el ', 'fr-fr': ' et le ', 'it-it': ' e il ', 'pt-br': ' e ', 'nl-nl': ' en ', 'de-de': ' und '}
+
+
+def run_pairs(job, ctx):
+    """two year-less numeric dates in one sentence (and in consecutive calls under one reference object): each is read exactly as it is
+    read alone - what the first date looked like (day first / month first, day above 12) must not change the reading of the second"""
+    from rtmon import lib
+    cu = job['culture']
+    m = dtlib.dt_model(cu)
+    r = ctx.rng('pairs:' + cu)
+    seps = ['/', '-'] if cu != 'de-de' else ['.', '/']
+    n = 60 if ctx.tier == 'quick' else 800
+    for _ in range(n):
+        sep = r.choice(seps)
+        big, small = r.randrange(13, 29), r.randrange(1, 13)
+        first = r.choice(['%d%s%d' % (big, sep, small), '%d%s%d' % (small, sep, big), '%d%s%d' % (r.randrange(1, 13), sep, r.randrange(1, 13))])
+        second = '%d%s%d' % (r.randrange(1, 13), sep, r.randrange(1, 13))
+        R = dtlib.rand_ref(r)
+        where = {'model': 'DateTimeModel', 'culture': cu, 'cls': 'pair'}
+
+        def view(q):
+            return [(e.text, e.type_name, [(v.get('timex'), v.get('value')) for v in dtlib.vals(e)]) for e in m.parse(q, R)]
+        alone = {}
+        for x in (first, second):
+            alone[x] = view(x)
+        # consecutive calls, same reference object
+        again = view(second)
+        q = first + PAIR_JOIN[cu] + second
+        both = view(q)
+        key = '%s|%s|%s' % (cu, q, R.isoformat())
+        case = {'culture': cu, 'query': q, 'first': first, 'second': second, 'reference': R.isoformat()}
+        ctx.event('boundary_calls', 4)
+        usable = len(alone[first]) == 1 and len(alone[second]) == 1
+        ctx.observe(key=key, nontrivial=usable and len(both) == 2, cell=cu + ':pair', sample={'culture': cu, 'query': q, 'observed': both})
+        if again != alone[second]:
+            ctx.fail('reading-depends-on-earlier-call', where, key, case, alone[second], again)
+        elif usable and len(both) == 2 and first != second:
+            exp = [alone[first][0], alone[second][0]]
+            if [b[1:] for b in both] != [e[1:] for e in exp]:
+                ctx.fail('reading-depends-on-neighbouring-date', where, key, case, exp, both)
+
+
 def plan(tier, seed):
     n = 8 if tier == 'quick' else 16
     jobs = [{'name': 's%d' % i, 'shard': i, 'shards': n} for i in range(n)]
     jobs += [{'name': 'cult-' + cu, 'culture': cu} for cu in sorted(WD_CULT)]
+    jobs += [{'name': 'pairs-' + cu, 'kind': 'pairs', 'culture': cu} for cu in sorted(PAIR_JOIN)]
     return jobs
 
 
 def run(job, ctx):
+    if job.get('kind') == 'pairs':
+        return run_pairs(job, ctx)
     if 'culture' in job:
         cu = job['culture']
         m = dtlib.dt_model(cu)
